@@ -22,8 +22,10 @@ def run(tier, replay=None, v=None, memory_only=False):
             seeds = [[0] * nl, [65535] * nl] + [[rng.randrange(65536) for _ in range(nl)] for _ in range(3)]
         for si, sd in enumerate(seeds[:1] if memory_only else seeds if tier == "thorough" else seeds[:3]):
             style = (si + len(recs)) % 3
+            if fn.startswith("adler") and si == 0: style = 1      # the long Adler message is all 0xFF: the sums grow fastest, so the deferred modular reductions are stressed
             n = N if si < 2 else N // 2 + rng.randrange(50)
             if fn.startswith("adler") and si == 0 and not memory_only: n = 11200 if tier == "quick" else 22400   # past two / four 5552-byte reduction blocks, every tail
+            if fn == "crc32_iscsi" and si == 0 and not memory_only: n = 6300 if tier == "quick" else 12500          # past two / four of the 3-way kernels' 3072-byte blocks, every tail
             msg = [rng.randrange(256) for _ in range(n)] if style == 0 else [255] * n if style == 1 else [rng.choice([0, 0, 0, 255, 1]) for _ in range(n)]
             recs.append({"id": len(recs), "fn": fn, "seed": sd, "msg": msg, "final_only": False})
         if tier == "thorough" and not memory_only:   # one large message per function (>= 1 MiB for adler's NMAX-style reductions; 256 KiB for the CRCs)
